@@ -6,6 +6,7 @@
 package auth
 
 import (
+	"bytes"
 	"crypto/rand"
 	"encoding/binary"
 	"fmt"
@@ -901,6 +902,18 @@ func c06Check(o *engine.Outcome, sh *engine.Shape, count bool, ef *engine.Fault)
 	var b []byte
 	if o.Guard("serialise constructed", func() { b, err = c.bytes() }) || err != nil {
 		return "constructed-value-does-not-serialise", fmt.Sprint(err)
+	}
+	// order of calls must not matter: serialising again gives the same bytes,
+	// and the value still verifies after it has been serialised
+	var b2 []byte
+	var err2, verr2 error
+	if !o.Guard("serialise/verify again", func() { b2, err2 = c.bytes(); verr2 = c.verify() }) {
+		if err2 != nil || !bytes.Equal(b, b2) {
+			return "second-serialisation-differs", fmt.Sprintf("%d vs %d bytes, err %v", len(b), len(b2), err2)
+		}
+		if verr2 != nil {
+			return "constructed-value-does-not-verify-after-serialising", short(verr2)
+		}
 	}
 	var accepted, parsed bool
 	var consumed int
